@@ -30,6 +30,17 @@ impl<A: Actor> Receiver<A> {
     }
 }
 
+impl<A: Actor> Drop for Receiver<A> {
+    fn drop(&mut self) {
+        // flume keeps queued messages alive for as long as any sender (a
+        // `Mailbox` or `Broker`) exists. Drop them before the channel is
+        // disconnected, so that the reply port of every queued `Call` is
+        // released and its caller observes `CallError::NoReply` instead of
+        // waiting forever for an actor that is gone.
+        while self.messages.try_recv().is_ok() {}
+    }
+}
+
 pub(crate) enum MailboxEvent<A: Actor> {
     Message(Delivering<A>),
     Stop,
